@@ -116,6 +116,7 @@ class SpinChainCompiler(GateCompiler):
             }
         )
         self.global_phase = global_phase
+        self.setup = setup
 
     def _rotation_compiler(self, gate, op_label, param_label, args):
         """
@@ -194,15 +195,22 @@ class SpinChainCompiler(GateCompiler):
     def _swap_compiler(self, gate, area, args):
         targets = gate.targets
         q1, q2 = min(targets), max(targets)
+        # The exchange interaction g_j only couples the qubits j and j+1
+        # (and, on the closed chain, the last qubit with the first one).
+        if q2 - q1 == 1:
+            pulse_name = "g" + str(q1)
+        elif self.setup == "circular" and q1 == 0 and q2 == self.N - 1:
+            pulse_name = "g" + str(q2)
+        else:
+            raise ValueError(
+                "The qubits %s of the gate %s are not coupled in the %s "
+                "spin chain." % (targets, gate.name, self.setup)
+            )
         g = self.params["sxsy"][q1]
         maximum = g
         coeff, tlist = self.generate_pulse_shape(
             args["shape"], args["num_samples"], maximum, area
         )
-        if self.N != 2 and q1 == 0 and q2 == self.N - 1:
-            pulse_name = "g" + str(q2)
-        else:
-            pulse_name = "g" + str(q1)
         pulse_info = [(pulse_name, coeff)]
         return [Instruction(gate, tlist, pulse_info)]
 
